@@ -137,10 +137,25 @@ func checkParsed(roots []*boc.Cell) string {
 			return fmt.Sprintf("FAIL toboc-panic root%d_%s", i, what)
 		}
 		_ = herr
-		if gi.MaxDepth <= 1024 && gi.Cells <= 20000 {
-			// printing costs Θ(depth²) characters by the format itself; see props/C07.py (partial)
-			if p, what := safely(func() { _ = r.ToString() }); p {
+		// printing: bounded by the visit budget of toStringImpl (65536 expanded cells, each printing at most 4
+		// children), whatever the unfolding of the DAG, and allocated in proportion to what is printed
+		{
+			var out string
+			var t0, t1 runtime.MemStats
+			runtime.ReadMemStats(&t0)
+			if p, what := safely(func() { out = r.ToString() }); p {
 				return fmt.Sprintf("FAIL tostring-panic root%d_%s", i, what)
+			}
+			runtime.ReadMemStats(&t1)
+			lines := strings.Count(out, "\n")
+			if lines > 4*boc.BOCSizeLimit+1 {
+				return fmt.Sprintf("FAIL tostring-lines root%d_%d_lines_%d_bytes", i, lines, len(out))
+			}
+			if len(out) > (4*boc.BOCSizeLimit+1)*(gi.MaxDepth+263) {
+				return fmt.Sprintf("FAIL tostring-size root%d_%d_bytes", i, len(out))
+			}
+			if a := t1.TotalAlloc - t0.TotalAlloc; a > uint64(32*len(out)+allocSlack) {
+				return fmt.Sprintf("FAIL tostring-alloc root%d_%d_bytes_allocated_for_%d_bytes_printed", i, a, len(out))
 			}
 		}
 		if serr == nil {
@@ -166,9 +181,27 @@ func checkParsed(roots []*boc.Cell) string {
 	return "ok"
 }
 
+// boc.tostring <hex> -> ok <lines>:<bytes> of Cell.ToString() for every root | err
+func exBocToString(a []string) string {
+	roots, err := boc.DeserializeBoc(h.MustUnHex(a[0]))
+	if err != nil {
+		return "err"
+	}
+	if gi := h.WalkCells(roots); gi.Cyclic || gi.NilRoot {
+		return "ok cyclic"
+	}
+	out := []string{"ok"}
+	for _, r := range roots {
+		s := r.ToString()
+		out = append(out, fmt.Sprintf("%d:%d", strings.Count(s, "\n"), len(s)))
+	}
+	return strings.Join(out, " ")
+}
+
 var bocExec = map[string]h.ExecFn{
-	"boc.parse": exBocParse,
-	"go.parse":  goParse,
+	"boc.tostring": exBocToString,
+	"boc.parse":    exBocParse,
+	"go.parse":     goParse,
 }
 
 func withBoc(m map[string]h.ExecFn) map[string]h.ExecFn {
